@@ -1576,7 +1576,10 @@ class CompiledType(compiler.CompiledType):
 def get_tag_no_encoding(member):
     value = (member.tag[0] & ~Encoding.CONSTRUCTED)
 
-    return bytearray([value]) + member.tag[1:]
+    # Sort key for the canonical order of tags. A high tag number
+    # is encoded in as few octets as possible, so among tags of the
+    # same class more identifier octets means a larger number.
+    return (value, len(member.tag), member.tag[1:])
 
 
 class Compiler(compiler.Compiler):
